@@ -140,10 +140,13 @@ def _phase(ctx: Ctx, name: str, t0: float):
     ctx.extra.setdefault("phase_s", {})[name] = round(time.time() - t0, 1)
 
 
-def features_of(variants: list[str], clause: str, which: str, tags: list[str]) -> dict:
+def features_of(variants: list[str], clause: str, which: str, tags: list[str], out: list[dict] | None = None) -> dict:
+    """Bookkeeping for the known-findings matcher (never used for the judgement)."""
     nums = {"int" if v.startswith("int/") else "float" for v in variants}
     orders = {"same" if v.split("/")[1] == v.split("/")[2] else "mixed" for v in variants}
-    return {"clause": clause, "which": which, "tags": "+".join(tags) or "none",
+    # some module of the output lists the same rectangle twice (two rectangles coincide)
+    dup = any(len({tuple(r) for r in o["rects"]}) < len(o["rects"]) for o in (out or []))
+    return {"clause": clause, "which": which, "tags": "+".join(tags) or "none", "coincident_rects": dup,
             "numeric": "both" if len(nums) > 1 else nums.pop(), "order": "both" if len(orders) > 1 else orders.pop()}
 
 
@@ -189,7 +192,7 @@ def decide(ctx: Ctx, cases: list[dict], source: str) -> int:
             ev = t["events"][l - 1]
             ctx.violation(clause, {"w": t["w"], "net": t["net"], "out": ev["out"], "variants": [x.split("/") for x in owners[key]]},
                           {"accepted": ev["acc"], "complaints": ev["tags"], "false_clause": which},
-                          features_of(owners[key], clause, which, ev["tags"]))
+                          features_of(owners[key], clause, which, ev["tags"], ev["out"]))
         failed = {l for (l, _c, _w) in v["fails"]}
         for (l, _what, which) in v["drift"]:
             if l not in failed:
